@@ -98,8 +98,10 @@ func (e Entry) isRPMOnly() bool {
 
 func (e Entry) srcOnDisk() bool {
 	switch e.Type {
-	case "symlink", "ghost", "dir":
+	case "symlink", "ghost":
 		return false
+	case "dir":
+		return e.Src != "" // a directory of the build environment to take mode and mtime from
 	}
 	return true
 }
@@ -333,7 +335,7 @@ func (c *BuildCase) ConfigMapFor(root, f string) map[string]any {
 		put(k, v)
 	}
 	put("name", c.Meta.Name)
-	put("arch", c.Meta.Arch)
+	num("arch", c.Meta.Arch) // 386 is a documented architecture and a YAML number
 	put("platform", c.Meta.Platform)
 	num("epoch", c.Meta.Epoch)
 	vtext := c.Meta.Version
